@@ -10,7 +10,9 @@ PROP = "C19"
 PROP_FILE = "Properties/C19.v"
 HEADER = "From Verif Require Import Base.Prelude.\nFrom Verif Require Import Repl.Model.\nFrom Verif Require Import Run.C19.\n"
 CASES_PER_SHARD = 400
-TAB_CHUNK = 12000
+TAB_CHUNK = 15000
+TAB_BLOCK = 250
+MASK128 = (1 << 128) - 1
 
 
 def hexb(h):
@@ -74,25 +76,47 @@ def scope_to_coq(sc):
     if is_acl(inst):
         keys = coq_list([hexb(k["id"]) for k in sc["keys"]])
         hashes = coq_list([hexb(h.get("hash", "")) for h in sc["hashes"]])
-        ty, fn = "@scope bytes bytes", "acl_tab_mismatches"
+        ty, fn = "@scope bytes bytes", "acl_tab"
     elif inst == "config":
         keys = coq_list(["(%s, %s)" % (hexb(k.get("kind", "")), hexb(k["id"])) for k in sc["keys"]])
         hashes = nl([h.get("hash64", 0) for h in sc["hashes"]])
-        ty, fn = "@scope ckey N", "cfg_tab_mismatches"
+        ty, fn = "@scope ckey N", "cfg_tab"
     else:
         keys = coq_list([hexb(k["id"]) for k in sc["keys"]])
         hashes = coq_list(["tt" for _ in sc["hashes"]])
-        ty, fn = "@scope bytes unit", "fed_tab_mismatches"
-    term = "(Scope %s %s %s %s %s %s : %s)" % (keys, hashes, nl(sc["mods"]), nl(sc["lasts"]), coq_N(sc["salt"]),
+        ty, fn = "@scope bytes unit", "fed_tab"
+    term = "(Scope %s %s %s %s %s %s %s : %s)" % (keys, hashes, coq_N(sc["lhashes"]), nl(sc["mods"]), nl(sc["lasts"]), coq_N(sc["salt"]),
                                                coq_bool(sc.get("ids_only", False)), ty)
     return term, fn
 
 
-def table_text(sc, start, outs):
+def table_text(sc, start, count):
+    """Coq prints one checksum per block of TAB_BLOCK model outputs"""
     term, fn = scope_to_coq(sc)
-    nums = ";".join(str(int(h, 16)) for h in outs)
-    return (HEADER + "Definition sc := %s.\nDefinition outs : list N := [%s]%%N.\n"
-            "Definition M := Eval vm_compute in %s sc %s outs.\nPrint M.\n" % (term, nums, fn, coq_N(start)))
+    return (HEADER + "Definition sc := %s.\n"
+            "Definition M := Eval vm_compute in %s_digests sc %s %s %s.\nPrint M.\n"
+            % (term, fn, coq_N(start), coq_N(count), coq_N(TAB_BLOCK)))
+
+
+def block_text(sc, start, count):
+    """Coq prints the model's encoded outputs of one block in full"""
+    term, fn = scope_to_coq(sc)
+    return (HEADER + "Definition sc := %s.\n"
+            "Definition M := Eval vm_compute in %s_outputs sc %s %s.\nPrint M.\n" % (term, fn, coq_N(start), coq_N(count)))
+
+
+def digests(outs):
+    """the checksums Run.C19.digests computes, over the implementation's outputs"""
+    res, h, k = [], 0, 0
+    for o in outs:
+        h = (h * 1000003 + o + 1) & MASK128
+        k += 1
+        if k == TAB_BLOCK:
+            res.append(h)
+            h, k = 0, 0
+    if k:
+        res.append(h)
+    return res
 
 
 def slim(c):
@@ -102,7 +126,17 @@ def slim(c):
 
 
 def run(ctx):
+    import time
+    t0 = time.time()
+    stages = {}
+
+    def lap(name):
+        nonlocal t0
+        stages[name] = round(time.time() - t0, 1)
+        vlib.log("[C19] %s: %.1fs" % (name, stages[name]))
+        t0 = time.time()
     info, ok = vlib.proof_stage(ctx, PROP_FILE, ["Run/C19.v"])
+    lap("proof stage (make under the shared lock + Print Assumptions)")
     cov = dict(info)
     cov["trusted_base"] = vlib.STD_TRUSTED + [
         "theorem hypotheses (stated, not axioms): ids are unique within the secondary's table and within the primary's list (they are the primary key of the state-store tables); `consistent`: whatever the primary has not modified after lastRemoteIndex is already in the secondary; `hash_sound`: equal stored hashes mean equal content (no collision between two versions of one object); remote lists contain no local-scoped tokens",
@@ -116,11 +150,13 @@ def run(ctx):
         return ctx.finish(cov, assumptions)
 
     binp = vlib.go_build("repl")
+    lap("harness build")
     out = os.path.join(ctx.workdir, "cases.jsonl")
     tab = os.path.join(ctx.workdir, "tables.jsonl")
     rc, o = vlib.sh([binp, "-seed", str(ctx.seed), "-tier", ctx.tier, "-out", out, "-tab", tab], timeout=3000)
     if rc != 0:
         raise vlib.BuildError("harness run failed: " + o[-3000:])
+    lap("implementation run (tables, diff cases, real rounds)")
     try:
         dist = json.loads(o.strip().split("\n")[-1])
     except Exception:
@@ -142,7 +178,8 @@ def run(ctx):
             nontrivial += 1
     tables = [json.loads(l) for l in open(tab)]
     tab_total = sum(t["total"] for t in tables)
-    tab_stats = {t["scope"]["inst"]: dict(t["stats"], total=t["total"], keys=len(t["scope"]["keys"])) for t in tables}
+    tab_stats = {t["scope"]["inst"]: dict(t["stats"], total=t["total"], keys=len(t["scope"]["keys"]),
+                                          hashes=len(t["scope"]["hashes"]), local_hashes=t["scope"]["lhashes"]) for t in tables}
     tab_oracle_failures = sum(t["stats"].get("oracle_failures", 0) for t in tables)
     for t in tables:
         nontrivial += t["stats"].get("nonempty_diff", 0)
@@ -156,26 +193,56 @@ def run(ctx):
         shards.append(shard_text(part))
         meta.append(("cases", part))
     for t in tables:
+        t["ints"] = [int(h, 16) for h in t["out"]]
         for s in range(0, t["total"], TAB_CHUNK):
-            shards.append(table_text(t["scope"], s, t["out"][s:s + TAB_CHUNK]))
-            meta.append(("table", t["scope"]["inst"]))
+            n = min(TAB_CHUNK, t["total"] - s)
+            shards.append(table_text(t["scope"], s, n))
+            meta.append(("table", (t, s, n)))
     res = vlib.coq_run_shards(PROP, shards, timeout=1500, jobs=10)
+    lap("model evaluation in Coq (%d shards)" % len(shards))
     mism = []  # replay-ready descriptions of disagreements
     n_mism = 0
+    bad_blocks = []
     for (kind, what), (okk, idx, raw) in zip(meta, res):
         if not okk:
             ctx.violation({"kind": "case-file-failed", "shard": kind, "log": raw}, found_input=False)
             continue
-        n_mism += len(idx)
-        for i in idx[:3]:
-            if kind == "cases":
-                mism.append(slim(what[i]))
-            else:
-                rc2, o2 = vlib.sh([binp, "-seed", str(ctx.seed), "-tier", ctx.tier, "-explain", "%s:%d" % (what, i)], timeout=600)
-                try:
-                    mism.append(slim(json.loads(o2.strip().split("\n")[-1])))
-                except Exception:
-                    mism.append({"inst": what, "table_index": i, "explain_output": o2[-500:]})
+        if kind == "cases":
+            n_mism += len(idx)
+            mism += [slim(what[i]) for i in idx[:3]]
+            continue
+        t, s, n = what
+        want = digests(t["ints"][s:s + n])
+        if len(idx) != len(want):
+            ctx.violation({"kind": "case-file-failed", "shard": "table %s@%d" % (t["scope"]["inst"], s),
+                           "log": "expected %d block checksums, Coq printed %d" % (len(want), len(idx))}, found_input=False)
+            continue
+        for b, (x, y) in enumerate(zip(idx, want)):
+            if x != y:
+                bad_blocks.append((t, s + b * TAB_BLOCK, min(TAB_BLOCK, n - b * TAB_BLOCK)))
+    if bad_blocks:
+        # second stage: the model's outputs of the differing blocks, number by number
+        shown = bad_blocks[:24]
+        res2 = vlib.coq_run_shards(PROP + "_blk", [block_text(t["scope"], s, n) for (t, s, n) in shown], timeout=900, jobs=10)
+        for (t, s, n), (okk, outs, raw) in zip(shown, res2):
+            if not okk or len(outs) != n:
+                ctx.violation({"kind": "case-file-failed", "shard": "block %s@%d" % (t["scope"]["inst"], s), "log": raw}, found_input=False)
+                continue
+            for i, (m, g) in enumerate(zip(outs, t["ints"][s:s + n])):
+                if m != g:
+                    n_mism += 1
+                    if len(mism) < 6:
+                        rc2, o2 = vlib.sh([binp, "-seed", str(ctx.seed), "-tier", ctx.tier, "-explain",
+                                           "%s:%d" % (t["scope"]["inst"], s + i)], timeout=600)
+                        try:
+                            d = slim(json.loads(o2.strip().split("\n")[-1]))
+                        except Exception:
+                            d = {"inst": t["scope"]["inst"], "explain_output": o2[-500:]}
+                        d.update({"table_index": s + i, "implementation_output_code": "%x" % g, "model_output_code": "%x" % m})
+                        mism.append(d)
+        n_mism += (len(bad_blocks) - len(shown))  # at least one per block not expanded
+    mism.sort(key=lambda c: len(c.get("local") or []) + len(c.get("remote") or []))
+    lap("comparison")
 
     # ---------------- direct oracle on the implementation
     new_fail = []
@@ -234,11 +301,12 @@ def run(ctx):
         "oracle_failures_unknown": len(new_fail),
         "known_finding_hits": dict(known_counts),
         "exhaustive": True,
-        "exhaustive_scope": "per instance: ALL pairs (local set, remote set) of unique-key objects over the scope's keys x hashes x remote modify indexes {1,3}, x lastRemoteIndex in {0,2,3}, each pair in one pseudo-random input order per side derived from the case number and the seed; ACL keys include the empty id and a prefix pair, config keys differ by kind and by name (incl. exported-services), config hashes include 0",
+        "exhaustive_scope": "per instance: ALL pairs (local set, remote set) of unique-key objects over the scope's keys x hashes x remote modify indexes {1,3}, x lastRemoteIndex in {0,2,3} (the local side draws from the first `local_hashes` hashes: quick uses one local hash for the ACL types - hash equality is symmetric - and two of three for config entries; thorough the full product for ACL), each pair in one pseudo-random input order per side derived from the case number and the seed; ACL keys are \"\", a, ab, b (empty id, a prefix pair), config keys differ by kind and by name (incl. exported-services), config hashes include 0; sizes per instance under `tables`",
         "tables": tab_stats,
         "explicit_case_classes": dict(classes),
         "input_distribution": dist,
         "real_rounds": len([c for c in cases if c["kind"] == "round"]),
+        "stage_seconds": stages,
         "samples": [slim(c) for c in (coq_cases[:2] + [c for c in coq_cases if c["kind"] == "round"][:2])],
     })
     return ctx.finish(cov, assumptions)
